@@ -12,7 +12,7 @@ Model of one client connection of the simulator at the EtherNet/IP encapsulation
 
 A request frame is given in *parsed* form (`Frame`): the 24-byte header fields and a `Body` that names the
 layout of the payload.  The harness builds the bytes of the frame from the same description; the model produces
-the bytes of the reply frames (`Reply.encode`).  `Body` covers the layouts the simulator's grammar accepts plus
+the bytes of the reply frames (`ReplyFrame.encode`).  `Body` covers the layouts the simulator's grammar accepts plus
 a structured set of malformed ones (short Register, unknown command, CPF item lists that are not
 [null address, unconnected data], unknown CIP services); `Frame.inScope` says which frames the model speaks about.
 
@@ -100,7 +100,7 @@ def Frame.parsable (f : Frame) : Bool :=
   | _ => true
 
 /-- a reply frame (`enip_encode( data.response.enip )`) -/
-structure Reply where
+structure ReplyFrame where
   command : Nat
   session : Nat
   status  : Nat
@@ -109,13 +109,13 @@ structure Reply where
   payload : Bytes
 deriving Repr, DecidableEq
 
-def Reply.encode (r : Reply) : Bytes :=
+def ReplyFrame.encode (r : ReplyFrame) : Bytes :=
   Bytes.le 2 r.command ++ Bytes.le 2 r.payload.length ++ Bytes.le 4 r.session ++ Bytes.le 4 r.status
     ++ r.context ++ Bytes.le 4 r.options ++ r.payload
 
 /-- what `logix.process` does with one parsed frame -/
 inductive Outcome
-  | reply (r : Reply)       -- returned True: `data.response.enip` is sent
+  | reply (r : ReplyFrame)       -- returned True: `data.response.enip` is sent
   | close                   -- returned False (Unregister): nothing is sent, the connection is dropped
   | abort                   -- raised (the frame cannot be parsed): nothing is sent, the connection is dropped
 deriving Repr, DecidableEq
@@ -143,7 +143,7 @@ deriving Repr, DecidableEq
 def failStatus (st : Nat) : Nat := if st = 0 then Generated.failStatusDefault else st
 
 /-- the response is a structural copy of the request's encapsulation -/
-def echo (f : Frame) (status : Nat) (payload : Bytes) : Reply :=
+def echo (f : Frame) (status : Nat) (payload : Bytes) : ReplyFrame :=
   { command := f.command, session := f.hdr.session, status := status, context := f.hdr.context,
     options := f.hdr.options, payload := payload }
 
@@ -268,7 +268,7 @@ deriving Repr, DecidableEq
 
 structure Run where
   srv      : Srv
-  replies  : List Reply
+  replies  : List ReplyFrame
   consumed : Nat          -- frames taken from the input (`stats.requests`)
   «end»    : End
 deriving Repr, DecidableEq
